@@ -136,19 +136,19 @@ func TestVerifC03Stress(t *testing.T) {
 			if rep.NumViolations() >= 6 {
 				return
 			}
-			c03Run(rep, lo+k, seeds[lo+k], profile)
+			c03Run(rep, lo+k, seeds[lo+k], profile, false)
 		})
 	}
 	rep.Count("reader_parks_at_hook", c03Parks.Load())
 	rep.Count("split_cas_wins", c03SplitWins.Load())
 }
 
-func c03Run(rep *kit.Report, idx int, seed uint64, profile int) {
+func c03Run(rep *kit.Report, idx int, seed uint64, profile int, follower bool) {
 	rng := kit.NewRNG(seed)
 	maxSeg := []int64{64, 200, 1000}[rng.Intn(3)]
 	total := int64(rng.Range(80, kit.Scale(260, 420)))
 	nread := rng.Range(3, 8)
-	withRO := rng.Chance(1, 4)
+	withRO := rng.Chance(1, 4) && !follower
 	dir := vfTempDir("c03")
 	defer os.RemoveAll(dir)
 	l, err := vfOpen(vfOpts(dir, maxSeg))
@@ -158,7 +158,7 @@ func c03Run(rep *kit.Report, idx int, seed uint64, profile int) {
 	}
 	defer l.Close()
 	witness := func() map[string]any {
-		return map[string]any{"run": idx, "run_seed": seed, "maxSegmentBytes": maxSeg, "messages": total, "readers": nread, "readonly_toggles": withRO, "delay_profile": profile}
+		return map[string]any{"run": idx, "run_seed": seed, "maxSegmentBytes": maxSeg, "messages": total, "readers": nread, "readonly_toggles": withRO, "delay_profile": profile, "follower_mode": follower}
 	}
 	fail := func(fp, what string) { rep.Violation(fp, what, witness()) }
 
@@ -176,6 +176,14 @@ func c03Run(rep *kit.Report, idx int, seed uint64, profile int) {
 		defer wg.Done()
 		defer writerDone.Store(true)
 		r := kit.NewRNG(seed ^ 0xA)
+		follCur := int64(-1)
+		defer func() {
+			if follower {
+				// the final response carries the final HW
+				l.SetHighWatermark(H)
+				finalSet.Store(true)
+			}
+		}()
 		for next := int64(0); next < total; {
 			n := int64(r.Range(1, 5))
 			if next+n > total {
@@ -185,7 +193,47 @@ func c03Run(rep *kit.Report, idx int, seed uint64, profile int) {
 			for k := int64(0); k < n; k++ {
 				msgs[k] = c01Content(seed, next+k).msg()
 			}
-			offs, err := l.Append(msgs)
+			var offs []int64
+			var err error
+			if follower {
+				// What a follower's replication loop does with a response:
+				// adopt the leader's HW, then append the message set.  The
+				// leader's HW lies anywhere between the previous HW and the
+				// leader's log end, which may be beyond this batch.
+				lhw := follCur
+				switch x := r.Intn(6); {
+				case x == 0:
+				case x < 4:
+					lhw = next + int64(r.Intn(int(n)+1)) - 1
+				default:
+					lhw = next + n - 1 + int64(r.Intn(4))
+				}
+				if lhw > H {
+					lhw = H
+				}
+				if lhw > follCur {
+					follCur = lhw
+				}
+				_ = follCur
+				ms, _, merr := newMessageSetFromProto(next, 0, msgs, false)
+				if merr != nil {
+					fail("C03:harness-msgset", merr.Error())
+					return
+				}
+				offs, err = l.AppendMessageSet(ms)
+				if r.Chance(1, 3) {
+					time.Sleep(time.Duration(r.Intn(200)) * time.Microsecond)
+				}
+				// partition.handleReplicationResponse adopts the leader HW after
+				// the append, capped at the local log end (the real handler is
+				// exercised by the followerpath unit in package server)
+				if newest := l.NewestOffset(); lhw > newest {
+					lhw = newest
+				}
+				l.SetHighWatermark(lhw)
+			} else {
+				offs, err = l.Append(msgs)
+			}
 			if err == ErrCommitLogReadonly {
 				time.Sleep(50 * time.Microsecond)
 				continue
@@ -225,10 +273,14 @@ func c03Run(rep *kit.Report, idx int, seed uint64, profile int) {
 		}
 	}()
 	// HW advancer (the only HW writer, so its own samples must be monotone and
-	// exactly what it set)
+	// exactly what it set).  Not in follower mode: there the replication loop
+	// (the appender above) is the only HW writer.
 	wg.Add(1)
 	go func() {
 		defer wg.Done()
+		if follower {
+			return
+		}
 		r := kit.NewRNG(seed ^ 0xB)
 		cur := int64(-1)
 		for {
@@ -571,4 +623,36 @@ func max64(a, b int64) int64 {
 		return a
 	}
 	return b
+}
+
+// TestVerifC03Follower: the same monitors on a log that is written the way a
+// follower writes it (adopt the leader's HW, then AppendMessageSet), with
+// committed readers on that replica (subscriptions served by an in-sync
+// follower).  The adopted HW may be ahead of the local log end.
+func TestVerifC03Follower(t *testing.T) {
+	rep := kit.NewReport("C03", "follower")
+	defer rep.Write()
+	rep.SetRule("as the stress unit, but the log is fed like a follower: per batch AppendMessageSet(bytes) then SetHighWatermark(min(leader HW, local newest)) with the leader HW anywhere in [previous HW, batch end + 3]; no read-only toggles; same per-read and completeness oracle; non-trivial = run rolled >=3 segments and a reader was created beyond the HW; distinct = (segment size, messages, reader starts, profile)")
+	verifhook.Set(c03Hook)
+	defer verifhook.Set(nil)
+	root := kit.NewRNG(kit.Mix(kit.Seed(), 0xC03F))
+	runs := kit.Scale(90, 1200)
+	seeds := make([]uint64, runs)
+	for i := range seeds {
+		seeds[i] = root.Uint64()
+	}
+	per := runs / 3
+	for profile := 0; profile < 3; profile++ {
+		c03DelayMode.Store(int64(profile))
+		lo, hi := profile*per, (profile+1)*per
+		if profile == 2 {
+			hi = runs
+		}
+		kit.Parallel(hi-lo, kit.Workers(), func(k int) {
+			if rep.NumViolations() >= 6 {
+				return
+			}
+			c03Run(rep, lo+k, seeds[lo+k], profile, true)
+		})
+	}
 }
